@@ -611,24 +611,16 @@ static int parse_complete(token_t *tok)
     _cffi_opcode_t t1complex;
     int modifiers_length, modifiers_sign;
 
- qualifiers:
-    switch (tok->kind) {
-    case TOK_CONST:
-        /* ignored for now */
-        next_token(tok);
-        goto qualifiers;
-    case TOK_VOLATILE:
-        /* ignored for now */
-        next_token(tok);
-        goto qualifiers;
-    default:
-        ;
-    }
-
     modifiers_length = 0;
     modifiers_sign = 0;
  modifiers:
     switch (tok->kind) {
+
+    case TOK_CONST:
+    case TOK_VOLATILE:
+        /* ignored for now; can be before or between the modifiers */
+        next_token(tok);
+        goto modifiers;
 
     case TOK_SHORT:
         if (modifiers_length != 0)
